@@ -385,6 +385,7 @@ func vCodecLine(rng *rand.Rand, cfg *vC17Cfg, n int, fill string, mk int) map[st
 	t3, _ := vSealOnce(h3, w)  //
 	vSetKey(K1)
 	src := map[int][]byte{1: s2, 2: t2, 3: t3}
+	srcH := map[int]*LocalEncryptionHandler{1: h1, 2: h2, 3: h3}
 
 	recs := []vRec{}
 	run := func(c vCase, reader *LocalEncryptionHandler, inputs func(emit func([]byte))) {
@@ -500,6 +501,11 @@ func vCodecLine(rng *rand.Rand, cfg *vC17Cfg, n int, fill string, mk int) map[st
 	for _, sw := range swaps {
 		reg, p := sw[0].(string), sw[1].(int)
 		st, ln := vRegion(reg, n)
+		// a one-byte ciphertext of another message equals this one's once in 256 seals: splicing it
+		// would change nothing; take another seal of the other message
+		for i := 0; i < 64 && bytes.Equal(src[p][st:st+ln], s[st:st+ln]); i++ {
+			src[p], _ = vSealOnce(srcH[p], w)
+		}
 		d := append([]byte{}, s...)
 		copy(d[st:st+ln], src[p][st:st+ln])
 		run(vCase{"swap", reg, p, "same", 0}, h1, one(d))
